@@ -119,6 +119,7 @@ pub struct WorldC {
     pub(crate) last_full_obs: Option<Value>,
     pub(crate) bulk_addrs: Vec<String>,
     pub(crate) expect_ballots: Vec<(usize, u64, String, String)>,
+    pub(crate) queue: std::collections::VecDeque<Step>,
 }
 
 pub fn wasm_exec(contract: &str, msg: &Value, funds: Vec<Coin>) -> Value {
@@ -284,6 +285,8 @@ impl WorldC {
                 };
             }
         }
+        // a multisig admin acts only through its proposals; a direct call is made by a (non-admin) user instead
+        let sender = if sender_is_contract { self.pick_user(rng) } else { sender };
         Step::Tx { sender, target: "group".into(), msg, funds: vec![], fault, script }
     }
 
@@ -447,8 +450,9 @@ impl WorldC {
             1..=6 => 1,
             _ => 2,
         };
+        let self_admin = self.last_group_obs.as_ref().and_then(|o| o.admin.clone()).map(|a| a == m.addr).unwrap_or(false);
         (0..n)
-            .map(|_| match rng.below(12) {
+            .map(|_| match if self_admin && rng.chance(1, 2) { 11 } else { rng.below(12) } {
                 0..=3 => bank_send(&self.pick_user(rng), rng.range(1, 1000) as u128, PAY_DENOM),
                 4..=6 => { let s = rng.pick(&self.sinks).clone(); let n = rng.below(100); wasm_exec(&s, &json!({"ping": n}), vec![]) },
                 7 => {
@@ -473,15 +477,38 @@ impl WorldC {
                     let a = self.pick_addr(rng);
                     if self.is_stake {
                         wasm_exec(&self.group, &json!({"add_hook":{"addr": a}}), vec![])
+                    } else if rng.chance(1, 3) {
+                        let r = self.pick_addr(rng);
+                        wasm_exec(&self.group, &json!({"update_members":{"add":[],"remove":[r]}}), vec![])
                     } else {
-                        wasm_exec(&self.group, &json!({"update_members":{"add":[{"addr": a, "weight": 1}],"remove":[]}}), vec![])
+                        let w = self.gen_weight(rng);
+                        wasm_exec(&self.group, &json!({"update_members":{"add":[{"addr": a, "weight": w}],"remove":[]}}), vec![])
                     }
                 }
             })
             .collect()
     }
 
+    /// contracts cannot sign: a step whose sender is a Sink becomes a user's call into that Sink, which relays it
+    fn relay_if_contract(&self, rng: &mut Rng, s: Step) -> Step {
+        if let Step::Tx { sender, target, msg, funds, fault, mut script } = s.clone() {
+            if let Some(label) = self.chain.label_of(&sender).map(|x| x.to_string()) {
+                if label.starts_with("sink") && funds.is_empty() {
+                    let taddr = self.chain.addr(&target);
+                    script.insert(0, (label.clone(), SinkAct::Call(vec![wasm_exec(&taddr, &msg, vec![])])));
+                    return Step::Tx { sender: self.pick_user(rng), target: label, msg: json!({}), funds: vec![], fault, script };
+                }
+            }
+        }
+        s
+    }
+
     fn gen_msig_step(&mut self, rng: &mut Rng) -> Step {
+        let s = self.gen_msig_step_inner(rng);
+        self.relay_if_contract(rng, s)
+    }
+
+    fn gen_msig_step_inner(&mut self, rng: &mut Rng) -> Step {
         let mi = rng.below(self.msigs.len() as u64) as usize;
         let m = self.msigs[mi].clone();
         let block = self.chain.block();
@@ -606,6 +633,70 @@ impl WorldC {
         }
     }
 
+    /// F3 by construction: jump the clock to a deadline -1 / exactly / +1 and queue the call that the deadline
+    /// guards (Vote / Execute / Close on that proposal; Claim by that staker) as the very next transaction
+    fn gen_boundary_sequence(&mut self, rng: &mut Rng) -> Option<Step> {
+        let b = self.chain.block();
+        let off = *rng.pick(&[0u64, 1, 1, 2]); // target = deadline + off - 1
+        let mut cands: Vec<(cw_utils::Expiration, Step)> = vec![];
+        for m in &self.msigs {
+            for t in m.props.values() {
+                if t.last_status == "Executed" {
+                    continue;
+                }
+                if let Ok(e) = serde_json::from_value::<cw_utils::Expiration>(t.content["expires"].clone()) {
+                    let voters: Vec<String> = t.snapshot.keys().filter(|v| !t.ballots.contains_key(*v)).cloned().collect();
+                    let who = if !voters.is_empty() && rng.chance(3, 4) { rng.pick(&voters).clone() } else { self.pick_user(rng) };
+                    let msg = match rng.below(6) {
+                        0 | 1 | 2 => json!({"vote":{"proposal_id": t.id, "vote": *rng.pick(&["yes", "no", "yes", "abstain", "veto"])}}),
+                        3 | 4 => json!({"close":{"proposal_id": t.id}}),
+                        _ => json!({"execute":{"proposal_id": t.id}}),
+                    };
+                    cands.push((e, Step::Tx { sender: who, target: m.label.clone(), msg, funds: vec![], fault: None, script: vec![] }));
+                }
+            }
+        }
+        if self.is_stake {
+            if let Some((_, _, period)) = self.stake_cfg {
+                for (u, recs) in &self.unbonds {
+                    for r in recs.iter().filter(|r| !r.paid) {
+                        let e = match period {
+                            cw_utils::Duration::Height(h) => cw_utils::Expiration::AtHeight(r.height + h),
+                            cw_utils::Duration::Time(t) => cw_utils::Expiration::AtTime(cosmwasm_std::Timestamp::from_nanos(r.nanos).plus_seconds(t)),
+                        };
+                        cands.push((e, Step::Tx { sender: u.clone(), target: "group".into(), msg: json!({"claim":{}}), funds: vec![], fault: None, script: vec![] }));
+                    }
+                }
+            }
+        }
+        if cands.is_empty() {
+            return None;
+        }
+        let (e, follow) = rng.pick(&cands).clone();
+        let jump = match e {
+            cw_utils::Expiration::AtHeight(h) => {
+                let target = (h + off).saturating_sub(1);
+                if target > b.height {
+                    Some(Step::Block { dh: target - b.height, dt: (target - b.height).saturating_mul(self.cfg.spb) })
+                } else {
+                    None
+                }
+            }
+            cw_utils::Expiration::AtTime(t) => {
+                let target = (t.seconds() + off).saturating_sub(1);
+                if target > b.time.seconds() {
+                    Some(Step::Block { dh: 1, dt: target - b.time.seconds() })
+                } else {
+                    None
+                }
+            }
+            _ => None,
+        }?;
+        self.queue.push_back(follow);
+        self.meter.hit("call_scheduled_on_a_deadline_boundary");
+        Some(jump)
+    }
+
     fn gen_block(&mut self, rng: &mut Rng) -> Step {
         let b = self.chain.block();
         if rng.chance(1, 2) && (!self.deadlines_h.is_empty() || !self.deadlines_t.is_empty()) {
@@ -715,7 +806,8 @@ impl World for WorldC {
             0
         };
         let bulk_props = if prop == "C20" && rng.chance(1, 2) { rng.range(9, 45) as usize } else { 0 };
-        let admin_name = if rng.chance(1, 10) { None } else { Some(rng.pick(&["user0", "user0", "user1", "sink0"]).to_string()) };
+        // "flex" = the DAO pattern: the multisig administers its own group (set up after both exist)
+        let admin_name = if rng.chance(1, 10) { None } else { Some(rng.pick(&["user0", "user0", "user1", "sink0", "flex"]).to_string()) };
         let mut total_hint: u64 = 0;
         let mut initial_bonds: Vec<(String, String)> = vec![];
         let group_init = if group_kind == "group" {
@@ -919,6 +1011,8 @@ impl World for WorldC {
         let stake_cw20 = cfg.group_kind == "stake_cw20";
         let mut ginit = cfg.group_init.clone();
         if let Some(a) = ginit.get("admin").and_then(|a| a.as_str()).map(|s| s.to_string()) {
+            // the multisig does not exist yet: user0 administers first and hands over below
+            let a = if a == "flex" { "user0".to_string() } else { a };
             ginit["admin"] = json!(resolve(&a, &chain));
         }
         if stake_cw20 {
@@ -980,6 +1074,7 @@ impl World for WorldC {
             last_full_obs: None,
             bulk_addrs,
             expect_ballots: vec![],
+            queue: Default::default(),
         };
         if !w.group_ok {
             w.meter.hit("group_instantiate_rejected");
@@ -1074,6 +1169,13 @@ impl World for WorldC {
                 w.apply_inner(&step, &mut pend);
             }
         }
+        if cfg.group_admin.as_deref() == Some("flex") {
+            if let Some(fa) = w.msigs.iter().find(|m| m.flex).map(|m| m.addr.clone()) {
+                let step = Step::Tx { sender: w.users[0].clone(), target: "group".into(), msg: json!({"update_admin":{"admin": fa}}), funds: vec![], fault: None, script: vec![] };
+                w.apply_inner(&step, &mut pend);
+                w.meter.hit("group_administered_by_its_own_multisig");
+            }
+        }
         w.init_msigs(&mut pend);
         // bulk proposals for C20
         if cfg.bulk_props > 0 {
@@ -1113,6 +1215,14 @@ impl World for WorldC {
     fn gen_step(&mut self, rng: &mut Rng) -> Step {
         if !self.group_ok {
             return Step::Block { dh: 1, dt: self.cfg.spb };
+        }
+        if let Some(s) = self.queue.pop_front() {
+            return s;
+        }
+        if rng.chance(1, 10) {
+            if let Some(s) = self.gen_boundary_sequence(rng) {
+                return s;
+            }
         }
         // weights: group/stake ops, multisig ops, clock
         let (wg, wm, wb) = match self.cfg.profile.as_str() {
